@@ -65,11 +65,30 @@ fn suite_board(cx: &mut Ctx, tier: &str, shard: usize, nshards: usize, variant: 
     family_en_passant(&mut frng, base + tier_n(tier, 1500, 40000), &mut fam);
     let base2 = fam.len();
     family_promotion(&mut frng, base2 + tier_n(tier, 800, 20000), &mut fam);
+    let base3 = fam.len();
+    family_boxed(&mut frng, tier_n(tier, 6000, 60000), &mut fam);
+    let _ = base3;
+    family_ep_boxed(&mut frng, tier_n(tier, 1200, 12000), &mut fam);
     let stride = tier_n(tier, 6, 1);
     let off = cx.rng.below(stride);
     for (i, d) in fam.iter().enumerate() {
         if i % nshards != shard { continue }
         if (i / nshards) % stride != off { continue }
+        let id = cx.case_id();
+        // positions with an en-passant square are, half of the time, reached by playing the double push
+        if d.ep.is_some() && cx.rng.chance(1, 2) {
+            if let Some((p, mt)) = predecessor_of_ep(d) {
+                if let (Some(pb), Ok(m)) = (cx.start(&id, &p, false), BoardMove::from_str(&mt)) {
+                    if pb.is_legal_move(&m) {
+                        if let Some(nb) = cx.step(&id, 1, &pb, &m) {
+                            let ms = sorted_moves(&nb);
+                            if !ms.is_empty() { let m2 = choose_move(&mut cx.rng, &nb, &ms); cx.step(&id, 2, &nb, &m2); }
+                        }
+                        continue;
+                    }
+                }
+            }
+        }
         let id = cx.case_id();
         if let Some(b) = cx.start(&id, d, false) {
             if cx.rng.chance(1, 2) {
